@@ -435,17 +435,26 @@ func ruleWaitChain(w *World, r *Report, pfx string) {
 		return
 	}
 	bad := ""
-	w.enumPaths(wait, pathOpts{}, func(p *Path) {
-		iB, iS := -1, -1
+	inMpb := func(_ ssa.CallInstruction, c *ssa.Function) bool { return c.Pkg == w.Mpb }
+	isCancel := func(p *Path, ev Event) bool {
+		c, ok := ev.In.(*ssa.Call)
+		return ok && isLoad(Val{V: stripConv(p.val(ev, c.Call.Value).V)}, "mpb.Progress", "cancel")
+	}
+	// Wait (Shutdown and private helpers inlined): bars first, then cancel, then the container goroutine
+	w.enumPaths(wait, pathOpts{InlineDepth: 3, Inline: inMpb}, func(p *Path) {
+		iB, iC, iS := -1, -1, -1
 		for _, ev := range p.Events {
 			if o := w.Comm().byIn[ev.In]; o != nil && o.Kind == "wg.Wait" && o.Class.has("wg:Progress.bwg") {
 				iB = ev.Idx
 			}
-			if c, ok := ev.In.(*ssa.Call); ok && c.Call.StaticCallee() == shut {
+			if isCancel(p, ev) && iC < 0 {
+				iC = ev.Idx
+			}
+			if o := w.Comm().byIn[ev.In]; o != nil && o.Kind == "wg.Wait" && o.Class.has("wg:Progress.pwg") {
 				iS = ev.Idx
 			}
 		}
-		if iB < 0 || iS < 0 || iB > iS {
+		if iB < 0 || iC < 0 || iS < 0 || !(iB < iC && iC < iS) {
 			bad = "Wait does not wait for the bars and then shut the container down"
 		}
 		// the user's wait group (WithWaitGroup) is waited for whenever one was given
@@ -466,10 +475,10 @@ func ruleWaitChain(w *World, r *Report, pfx string) {
 	})
 	r.Check(bad == "", rule, "Progress.Wait", w.pos(wait.Pos()), "bwg.Wait then Shutdown, then the user's group if any", bad)
 	bad = ""
-	w.enumPaths(shut, pathOpts{}, func(p *Path) {
+	w.enumPaths(shut, pathOpts{InlineDepth: 3, Inline: inMpb}, func(p *Path) {
 		iC, iW := -1, -1
 		for _, ev := range p.Events {
-			if c, ok := ev.In.(*ssa.Call); ok && isLoad(Val{V: c.Call.Value}, "mpb.Progress", "cancel") {
+			if isCancel(p, ev) {
 				iC = ev.Idx
 			}
 			if o := w.Comm().byIn[ev.In]; o != nil && o.Kind == "wg.Wait" && o.Class.has("wg:Progress.pwg") {
